@@ -121,7 +121,7 @@ def check(E, s):
 
 
 def _binop(kind, cls, zop):
-    @task(f"selection.{kind}", props=["C18"], functions=FUNCS)
+    @task(f"selection.{kind}", props=["C18", "C10"], functions=FUNCS)
     def t(E):
         z3 = E.z3
         A = Addr(E)
@@ -141,7 +141,10 @@ def _binop(kind, cls, zop):
         opaque_facts(E, A, b, c, q)
         E.prove(f"C18.{cls}.check_agrees_with_denotation", check(E, plain) == den(E, A, plain, A.nil))
         sub = E.method(plain, "get_subselection", c)
-        E.prove(f"C18.{cls}.get_subselection_agrees_with_denotation", den(E, A, sub, q) == den(E, A, plain, A.mk_cons(c, q)))
+        # (C10: project walks a trace site by site with S.get_subselection(address); the projected weight is the density of the
+        # SELECTED choices only if the sub-selection of a combined selection denotes the combination of the sub-selections)
+        E.prove(f"C18.{cls}.get_subselection_agrees_with_denotation", den(E, A, sub, q) == den(E, A, plain, A.mk_cons(c, q)),
+                also=["C10"])
         E.refutable(f"selection.{kind}", den(E, A, r, p) == den(E, A, a, p))
     return t
 
